@@ -725,6 +725,84 @@ def run_group(case):
 # ------------------------------------------------------------------------------------------------------
 # stage 2: setter histories
 
+# ------------------------------------------------------------------------------------------------------
+# stage 'intervals': the documented alternative to the Lebedev rules - a mid-point rule on (phi, theta) intervals
+# (setIntegrationIntervals).  The algebraic clauses of the statement hold for any quadrature and are asserted at rounding level;
+# agreement with the independent reference is asserted only coarsely (1e-2 at 64 x 64 intervals, and the error must not grow
+# from 32 x 32 to 64 x 64): a mid-point rule converges slowly, what matters is that it converges to the right number.
+
+def run_intervals(case):
+    matname, rotname, axname, prec, eigname = case['matrix'], case['rot'], case['axes'], case['prec'], case['eig']
+    mat, route = MATRICES[matname]
+    V = Viol()
+    R = np.array(rot_matrix(rotname))
+    axes = AXES[axname]
+    r = np.array(axes) * R0
+    vol = 4 * math.pi / 3 * float(np.prod(r))
+    CM = ref_rot4(R, ref_c4(*material_constants(mat)))
+    pc = prec_constants(matname, prec)
+    CP0 = prec_c4(pc)
+    CP = ref_rot4(R, CP0) if CP0 is not None else None
+    Sref, nref, _ = ref_S(CM, axes)
+    eps = eig_tensor(EIGS[eigname])
+    eref = ref_energy(CM, CP, Sref, eps, vol)
+    t = 'matrix=%s rot=%s axes=%s prec=%s eig=%s' % (matname, rotname, axname, prec, eigname)
+    nst = ntr = 0
+    errs = {}
+    try:
+        se = api_object(matname, prec, R)
+        d = se.description
+        se.setEigenstrain(EIGS[eigname])
+    except Exception as e:
+        V.add('intervals/exception/setup/%s' % type(e).__name__, '%s: %r' % (t, e))
+        return {'viol': V.out(), 'states': 0, 'outcome': 'exception'}
+    for n in case['n']:
+        for sym in ([False, True] if case['symmetric_ok'] else [False]):
+            if sym and n % 2:
+                continue
+            tt = '%s intervals=%d%s' % (t, n, ' (one octant)' if sym else '')
+            try:
+                d.setIntegrationIntervals(n // 2 if sym else n, n // 2 if sym else n, assumeSymmetric=sym)
+                en = {}
+                for inv in INVS:
+                    d.setOhmInverseFunction(inv)
+                    en[inv] = api_energies(se, r, prec == 'none')
+                e2 = api_energies(se, 2.0 * r, prec == 'none')
+            except Exception as e:
+                V.add('intervals/exception/energy/%s' % type(e).__name__, '%s: %r' % (tt, e))
+                continue
+            nst += 1
+            a = en[INVS[-1]]
+            for m, v in a.items():
+                ntr += 4
+                if not (math.isfinite(v) and v >= 0):
+                    V.add('intervals/nonneg/%s' % m, '%s: %s = %r' % (tt, m, v))
+                if not close(en[INVS[0]][m], v, RTOL_SAME):
+                    V.add('intervals/inverse-routines/%s' % m, '%s: %s quick %r vs numpy %r' % (tt, m, en[INVS[0]][m], v))
+                if not close(e2[m], 8.0 * v, RTOL_SCALE):
+                    V.add('intervals/cubic-scaling/%s' % m, '%s: %s E(2r) = %r, 8 E(r) = %r' % (tt, m, e2[m], 8.0 * v))
+            for m2, m4 in (('Ellipsoid2ndRank', 'Ellipsoid'), ('Bohm2ndRank', 'Bohm')):
+                if m2 in a and not close(a[m2], a[m4], RTOL_SAME):
+                    V.add('intervals/rank-agree/%s' % m4, '%s: 6x6 %r vs fourth rank %r' % (tt, a[m2], a[m4]))
+            if 'Ellipsoid' in a and not close(a['Ellipsoid'], a['Bohm'], RTOL_SAME):
+                V.add('intervals/homog-limit', '%s: homogeneous formula %r vs general %r' % (tt, a['Ellipsoid'], a['Bohm']))
+            errs[(n, sym)] = abs(a['Bohm'] - eref) / abs(eref)
+    if errs:
+        for sym in (False, True):
+            ks = sorted(k for k in errs if k[1] == sym)
+            if not ks:
+                continue
+            last = errs[ks[-1]]
+            if not last <= 1e-2:
+                V.add('intervals/reference%s' % ('/octant' if sym else ''), '%s: %d intervals give an energy %.3g away (relative) from the independent '
+                      'reference %r' % (t, ks[-1][0], last, eref))
+            if len(ks) > 1 and not last <= errs[ks[-2]] + 1e-6:
+                V.add('intervals/not-converging%s' % ('/octant' if sym else ''), '%s: error %.3g at %d intervals, %.3g at %d'
+                      % (t, errs[ks[-2]], ks[-2][0], last, ks[-1][0]))
+    return {'viol': V.out(), 'states': nst, 'transitions': ntr, 'outcome': 'intervals/%s' % ('octant+full' if case['symmetric_ok'] else 'full'),
+            'info': {'rel_err': {'%d%s' % (k[0], 's' if k[1] else ''): float('%.3g' % v) for k, v in errs.items()}}}
+
+
 SETTER_CANON = ['rot', 'rotP', 'stiff', 'prec', 'eig', 'shape']
 
 
@@ -1100,6 +1178,16 @@ def run(ctx):
                 cases.append({'matrix': mname, 'rot': rn, 'axes': an, 'precs': precs, 'orders': ORDERS, 'invs': INVS, 'eigs': eigs,
                               'scales': scales, 'mults': mults, 'relabel': relabel})
     ctx.product_run('product', 'checks.c16:run_group', cases, chunksize=1)
+
+    # stage 1b: interval quadrature
+    icases = []
+    for mname in matrices:
+        for rn in rots:
+            for an in [a for a in axes if a != 'sphere'][:2 if quick else None]:
+                for prec in ['none', 'stiff']:
+                    icases.append({'matrix': mname, 'rot': rn, 'axes': an, 'prec': prec, 'eig': eigs[len(icases) % len(eigs)],
+                                   'n': [32, 64], 'symmetric_ok': rn in ('none', 'id', 'I')})
+    ctx.product_run('intervals', 'checks.c16:run_intervals', icases, chunksize=1)
 
     # stage 2
     scases = []
